@@ -50,8 +50,11 @@ def _run(ctx, env):
         "machine (Model/Mutex.lean, Lemmas/MutexLin.lean) in which every call is BY CONSTRUCTION Lock(); micro-steps; "
         "Unlock(): for that machine every schedule is linearizable in acquisition order, dead-lock free and bounded. "
         "They are NOT statements about rotator.go: deleting r.lock.Lock() from Write, or unlocking before file.Write, "
-        "leaves all of them true. That the Go code really brackets every method with the one sync.Mutex (and that "
-        "sync.Mutex is a mutex) is ASSUMED; its only tie is the `stress` oracle of this check — goroutines calling "
+        "leaves all of them true. That the Go code really brackets every access to its mutable state with the one "
+        "sync.Mutex is decided on every run by Props/C12Lock.lean about lock-state tables that gossa/lockfacts regenerates "
+        "from the typed SSA form of the working tree (deleting the Lock() from Write, Sync or Close, or touching file/size "
+        "after the Unlock, breaks C12Lock.accesses_under_the_mutex); the extractor and the semantics of sync.Mutex are "
+        "trusted. The concrete search for a failing schedule is the `stress` oracle of this check — goroutines calling "
         "Write, Close and Sync on one Rotator, judged by the conclusion of the theorem (whole records, per-goroutine "
         "order, all records while the oldest slot is unused, directory = sequential rotation rule applied to the "
         "records in the order read back) — run plain and under the race detector. The clause `concurrent writers "
@@ -62,6 +65,8 @@ def _run(ctx, env):
         "100; astronomically large values (math.MaxInt) make a rotating Write run for that many iterations",
     ]
     ctx.lean(props=["Props.C12"], drivers=["drv_c12"])
+    from vlib import lockfacts
+    lockfacts.run(ctx, "rotation", "Props.C12Lock", "C12Lock")   # lock discipline decided about tables regenerated from the Go source
     marks["lean_s"] = round(time.time() - t0, 1)
     ctx.harness("./cmd/c12")
     marks["harness_s"] = round(time.time() - t0, 1)
